@@ -83,7 +83,33 @@ def audit_sources(modules):
     return hits
 
 
-def build(prop_modules):
+def recheck_oleans(prop_modules, targets):
+    """thorough tier: re-check the compiled property modules with leanchecker (the toolchain's independent replay of
+    every declaration through the kernel).  An .olean that an interrupted build left missing is rebuilt once."""
+    res = {"ran": True, "failed": [], "log": ""}
+    for m in prop_modules:
+        mod = "MelModel.Props." + m
+        for attempt in range(3):
+            rc, out = sh(["lake", "env", "leanchecker", mod], cwd=LEAN, timeout=3000)
+            if rc == 0:
+                break
+            mm = re.search(r"object file '([^']+)\.olean' of module", out)
+            if mm and attempt < 2:
+                # stale trace without its artefact: drop the trace files of that module and rebuild
+                for ext in (".trace", ".olean.hash", ".ilean.hash", ".ilean"):
+                    try:
+                        os.remove(mm.group(1) + ext)
+                    except OSError:
+                        pass
+                sh(["lake", "build"] + targets, cwd=LEAN, timeout=3000)
+                continue
+            res["failed"].append(m)
+            res["log"] += out[-1500:]
+            break
+    return res
+
+
+def build(prop_modules, recheck=False):
     """regenerate tables, build Lean targets and the harness. Returns a report dict."""
     rep = {"tie": None, "lean_ok": False, "lean_log": "", "theorems": {}, "sorry": [], "bad_axioms": [],
            "forbidden": [], "harness_ok": False, "harness_log": "", "failed_modules": []}
@@ -107,6 +133,13 @@ def build(prop_modules):
         rep["failed_modules"] = re.findall(r"^- (MelModel[\w.]*)", out, flags=re.M)
         rep["lean_errors"] = re.findall(r"error: (MelModel/[\w/]+\.lean:\d+:\d+:[^\n]*)", out)[:10]
         rep["forbidden"] = audit_sources(prop_modules)
+        rep["leanchecker"] = {"ran": False, "failed": [], "log": ""}
+        if recheck and rep["lean_ok"]:
+            rep["leanchecker"] = recheck_oleans(prop_modules, targets)
+            for m in rep["leanchecker"]["failed"]:
+                rep["failed_modules"].append("MelModel.Props." + m)
+            if rep["leanchecker"]["failed"]:
+                rep["lean_log"] += "\nleanchecker: " + rep["leanchecker"]["log"]
         rc, out = sh(["cargo", "build", "--offline"], cwd=HARNESS, timeout=3000)
         rep["harness_ok"] = rc == 0
         rep["harness_log"] = out[-4000:]
@@ -230,7 +263,7 @@ def run_check(prop, tier):
     known = load_known()
     violations = []   # dicts: kind, stream, line, op, impl, model, detail, theorem ...
     notes = []
-    rep = build(cfg["modules"])
+    rep = build(cfg["modules"], recheck=(tier == "thorough"))
 
     # ---- (a) proof obligations
     obligations = []
@@ -453,7 +486,9 @@ def run_check(prop, tier):
                            ("%d of %d proof obligations NOT discharged on this run (broken tie, build failure or audit failure): %s" % (len(undischarged), len(obligations), undischarged[:10])),
             "obligations": len(obligations),
             "discharged": len(discharged),
-            "checker_cmd": "python3 tools/gen_tables.py && (cd lean && lake build driver " + " ".join("MelModel.Props." + m for m in cfg["modules"]) + ")",
+            "checker_cmd": "python3 tools/gen_tables.py && (cd lean && lake build driver " + " ".join("MelModel.Props." + m for m in cfg["modules"]) + ")" +
+                           ((" && (cd lean && " + " && ".join("lake env leanchecker MelModel.Props." + m for m in cfg["modules"]) + ")") if thorough else ""),
+            "leanchecker": ("re-checked %d compiled module(s) with leanchecker: %s" % (len(cfg["modules"]), "all accepted" if not rep["leanchecker"]["failed"] else ("REJECTED " + ",".join(rep["leanchecker"]["failed"])))) if rep.get("leanchecker", {}).get("ran") else "not run in this tier",
             "trusted_base": P.TRUSTED_BASE + cfg.get("trusted_extra", []),
             "theorems": [n for _, n in obligations],
             "undischarged": undischarged,
